@@ -2,7 +2,8 @@
 //! one length, offset, key, type id, bitmap or buffer (pairs in the thorough tier), read through every access
 //! path (deserialize_any, the natural typed target with and without its Option layer, alternative targets),
 //! under catch_unwind.  The case carries the corrupted view, the base view and the implementation's results
-//! on both, so that the driver can decide "error, or the values the view as it stands designates, or untouched".
+//! on both, so that the driver can decide "error, or the values the view as it stands designates, or untouched";
+//! a case with two corruptions also carries the two views that have one of them each (`alts`).
 use crate::lgen;
 use crate::readx;
 use crate::rng::Rng;
@@ -510,6 +511,7 @@ pub fn gen(ctx: &Ctx) -> Vec<Value> {
         *at_mut(&mut view, &m.path) = m.new.clone();
         let mut class = m.class.clone();
         let mut where_ = path_text(&m.path);
+        let mut alts: Vec<Value> = Vec::new();
         // pairs (thorough tier): a second, moderate corruption somewhere else
         if pairs && r2.chance(1, 4) {
             let m2 = &muts[r2.usize(muts.len())];
@@ -517,14 +519,24 @@ pub fn gen(ctx: &Ctx) -> Vec<Value> {
             let n = m.path.len().min(m2.path.len());
             let nested = m.path[..n] == m2.path[..n]; // one site inside the other: the second write could miss
             if moderate && !nested && !m.class.contains("max") {
+                // the two views with ONE of the corruptions each (`alts`): a read that looks at only one of the two
+                // sites is explained by the view that has only that corruption
+                let view1 = view.clone();
+                let mut view2 = base.clone();
+                *at_mut(&mut view2, &m2.path) = m2.new.clone();
+                alts = vec![view1, view2];
                 *at_mut(&mut view, &m2.path) = m2.new.clone();
                 class = format!("{}&{}", class, m2.class);
                 where_ = format!("{}&{}", where_, path_text(&m2.path));
             }
         }
         let reads = reads_for(&mut r2, field, n, top_len(&view));
-        out.push(json!({"id": format!("corrupt-{c:06}"), "seed": sub_seed, "fm": wiregen::fmeta(field), "corruption": class, "at": where_,
-                        "base": base, "view": view, "reads": reads}));
+        let mut case = json!({"id": format!("corrupt-{c:06}"), "seed": sub_seed, "fm": wiregen::fmeta(field), "corruption": class, "at": where_,
+                              "base": base, "view": view, "reads": reads});
+        if !alts.is_empty() {
+            case["alts"] = Value::Array(alts);
+        }
+        out.push(case);
         c += 1;
     };
     for b in 0..nbase {
